@@ -64,7 +64,7 @@ def run(ctx):
         seeds = [ctx.seed] if q else [ctx.seed, ctx.seed + 1000, ctx.seed + 2000]
         jobs = []
         for s in seeds:
-            for mode, n in (("exact", 240 if q else 1200), ("free", 48 if q else 240)):
+            for mode, n in (("exact", 240 if q else 900), ("free", 48 if q else 180)):
                 t = os.path.join(ctx.work, "%s-%d.ndjson" % (mode, s))
                 sd = os.path.join(scratch, "%s-%d" % (mode, s))      # saved iterates of concurrent runs must not collide
                 os.makedirs(sd, exist_ok=True)
